@@ -285,8 +285,12 @@ func (g *Gen) structSort(t types.Type) *structInfo {
 	}
 	for i := 0; i < st.NumFields(); i++ {
 		f := st.Field(i)
-		fs = append(fs, fmt.Sprintf("(|%s.%s| %s)", name, f.Name(), g.sortOf(f.Type())))
-		si.fields = append(si.fields, f.Name())
+		fname := f.Name()
+		if fname == "_" {
+			fname = fmt.Sprintf("_%d", i) // blank fields: selector names must be unique (cvc5 rejects duplicates)
+		}
+		fs = append(fs, fmt.Sprintf("(|%s.%s| %s)", name, fname, g.sortOf(f.Type())))
+		si.fields = append(si.fields, fname)
 	}
 	g.decls = append(g.decls, fmt.Sprintf("(declare-datatypes ((%s 0)) (((|mk:%s| %s))))", si.sort, name, strings.Join(fs, " ")))
 	return si
